@@ -365,6 +365,7 @@ func checkC02(p *Prog, r *Report) {
 	checkWindowWithinFile(p, r, ptrFn)
 	checkTokenCodec(p, r)
 	checkBlockLengthSiblings(p, r)
+	checkCoversEveryByte(p, r)
 	r.Trust("MD4 collision resistance (a strong match is taken as content equality, as in rsync)")
 	r.Uncovered("offset/length arithmetic of the window (mapStruct), the receiver's token*BlockLength arithmetic, chunking, rolling-checksum algebra: value-level, out of reach of structural rules")
 }
